@@ -106,7 +106,7 @@ def networks(draw, tier="quick"):
     arcs = [[perm[u], perm[v], c, w] for u, v, c, w in arcs]
     arcs = [list(a) for a in draw(st.permutations(arcs))]
     return {
-        "family": family, "n": n, "arcs": arcs, "s": perm[s], "t": perm[t], "scheme": draw(st.integers(0, 4)), "demand_off": draw(st.integers(-3, 2)), "supply_seed": draw(st.lists(st.integers(-3, 3), min_size=n, max_size=n)),
+        "family": family, "n": n, "arcs": arcs, "s": perm[s], "t": perm[t], "scheme": draw(st.integers(0, 5)), "demand_off": draw(st.integers(-3, 2)), "supply_seed": draw(st.lists(st.integers(-3, 3), min_size=n, max_size=n)),
         "edit": draw(st.one_of(st.none(), st.tuples(st.integers(0, n - 1), st.integers(0, n - 1), st.integers(1, 3), st.integers(0, 4)).map(list))),
         "supply_mode": "from-flow" if family == "tight" else draw(st.sampled_from(["from-flow", "from-flow", "random"])),
         "flow_seed": draw(st.lists(st.sampled_from([4, 4, 4, 0, 1, 2]) if family == "tight" else st.integers(0, 4), min_size=len(arcs), max_size=len(arcs))),
